@@ -291,9 +291,9 @@ func scenarioTwin() int {
 		if g.R.Intn(6) == 0 {
 			steps = twinDialog(w, g, i)
 		} else {
-			c := genRelayCase(w, g, i, "C01")
+			c := genRelayCase(w, g, i, "C17")
 			for c.path.Svc >= twinShift {
-				c = genRelayCase(w, g, i, "C01")
+				c = genRelayCase(w, g, i, "C17")
 			}
 			steps = []*relayCase{c}
 		}
@@ -339,6 +339,16 @@ func scenarioTwin() int {
 					d["respelled_output"] = clip(string(ob[0].Raw), 2500)
 				}
 				return d
+			}
+			if len(oa) != len(ob) {
+				// slow is not different: wait for the side that is behind under the watchdog
+				nmax := len(oa)
+				if len(ob) > nmax {
+					nmax = len(ob)
+				}
+				w.Net.WaitCase(idA, func(o []*wire.Obs) bool { return len(o) >= nmax }, w.BarrierWait)
+				w.Net.WaitCase(idB, func(o []*wire.Obs) bool { return len(o) >= nmax }, w.BarrierWait)
+				oa, ob = w.Net.ForCase(idA), w.Net.ForCase(idB)
 			}
 			if len(oa) != len(ob) {
 				why := fmt.Sprintf("canonical spelling produced %d outputs, respelled twin %d", len(oa), len(ob))
